@@ -350,6 +350,13 @@ def decl_case(rng, k):
         decls.append(fill(rng.choice(insts)))
     for _ in range(rng.randint(0, 2)):
         decls.append(fill(rng.choice(misses)))
+    # declarations also occur as statements: in function bodies, closures, goroutines
+    if name in ("var-value", "const-type", "type-struct-field", "iface-method"):
+        wraps = ["func local%d() {\n\t%s\n}", "var closure%d = func() {\n\t%s\n}", "func spawn%d() {\n\tgo func() {\n\t\t%s\n\t}()\n}",
+                 "func ret%d() func() {\n\treturn func() {\n\t\t%s\n\t}\n}", "func deferred%d() {\n\tdefer func() {\n\t\tif true {\n\t\t\t%s\n\t\t}\n\t}()\n}"]
+        for j in range(rng.randint(1, 3)):
+            body = fill(rng.choice(insts if rng.random() < 0.7 else misses)).replace("\n", "\n\t")
+            decls.append(rng.choice(wraps) % (j, body))
     decls += rng.sample(DECL_FILL, rng.randint(2, 5))
     rng.shuffle(decls)
     # declarations of one kind must not repeat verbatim (type Config twice does not matter to the parser)
